@@ -8,6 +8,9 @@ CONSTANTS
   Styles = {"split"}
   MaxPub = 3
   MaxBatch = 2
+  MinBatch = 1
+  PubClosed = FALSE
+  MaxAhead = 0
   MaxJoin = 2
   AtPos = {0}
   MaxKick = 1
